@@ -225,3 +225,129 @@ Theorem C08_example2_contracts_hold : forall A qD nrm tr,
   tdvp_twosite ex_orth ex3_split kexp_id ex3H ex3Psi exdt exhdt 2 = Some (A, qD, nrm, tr) -> splits_okb ex3_split 2 (rev tr) = true ->
   ttr2_ok ex3_split kexp_id (o_A ex3H) exdt exhdt 2 (rev tr).
 Proof. intros A qD nrm tr _ H. apply ttr2_ok_id. exact H. Qed.
+
+(* ---------------------------------------------------------------------------------------------------------------
+   LINK to C15 / C14 / C04 (linking round; lemmas in Proofs/Link*.v).  The abstract local-solver arguments of the sweep are
+   instantiated by the CONCRETE solvers of pytenet/evolution.py,
+
+     kexp_lanczos  dnorm small deigh dexp dexpm numiter  =  _local_hamiltonian_step :
+        expm_krylov(lambda x: apply_local_hamiltonian(L, R, W, x.reshape(A.shape)).reshape(-1), A.reshape(-1), -dt, numiter, hermitian=True).reshape(A.shape)
+     kexp0_lanczos dnorm small deigh dexp dexpm numiter  =  _local_bond_step (apply_local_bond_contraction, C.reshape(-1)),
+
+   built from the Krylov model of C14/C15 (Model/Krylov.v) and the row-major flatten / unflatten bridge
+   (Proofs/LinkFlatten.v: site_vec / vec_site, site_dot = vdot on flattened tensors).  The oracles left are the numerical
+   primitives: numpy.linalg.norm (dnorm), the breakdown test (small), eigh_tridiagonal (deigh), numpy.exp (dexp), the block QR
+   (qr) and MPS.orthonormalize (orth). *)
+From PT Require Import Model.Krylov Proofs.KrylovLanczos Proofs.KrylovRitz Proofs.LinkExpmEnergy Proofs.LinkFlatten Proofs.LinkLocalOps
+  Proofs.LinkSolvers Proofs.LinkCtx Proofs.LinkBond Proofs.LinkRunTDVP.
+
+(* flatten / unflatten bridge: np.vdot(Y.reshape(-1), X.reshape(-1)) = <Y|X>, reshape round trip *)
+Theorem C08_flatten_bridge : forall (F : ofield) (d Dl Dr : nat) (Y X : site (Cx F)) (x : list (Cx F)),
+  (0 < d)%nat -> site_ok d Dl Dr Y ->
+  Krylov.vdot (site_vec F d Dl Dr Y) (site_vec F d Dl Dr X) = site_dot Y X /\
+  (length x = (d * Dl * Dr)%nat -> site_vec F d Dl Dr (vec_site F d Dl Dr x) = x) /\
+  site_ok d Dl Dr (vec_site F d Dl Dr x) /\ length (site_vec F d Dl Dr X) = (d * Dl * Dr)%nat.
+Proof.
+  intros F d Dl Dr Y X x Hd HY. split; [exact (vdot_site_vec F d Dl Dr Y X Hd HY)|].
+  split; [exact (site_vec_vec_site F d Dl Dr x)|]. split; [exact (vec_site_ok F d Dl Dr x)|exact (length_site_vec F d Dl Dr X)].
+Qed.
+Print Assumptions C08_flatten_bridge.
+
+(* the flattened effective Hamiltonian  x |-> apply_local_hamiltonian(L, R, W, x.reshape(shape)).reshape(-1)  maps vectors of length
+   d*Dl*Dr to such vectors, is linear, and is self-adjoint w.r.t. vdot whenever H_eff is self-adjoint w.r.t. site_dot
+   ([local_sa]: the conclusion of C04_heff_hermitian for a Hermitian MPO) *)
+Theorem C08_flat_heff_hypotheses : forall (F : ofield) (d Dl Dr Dwl Dwr : nat) (BL BR : env (Cx F)) (W : osite (Cx F)),
+  (0 < d)%nat -> (0 < Dwl)%nat -> (0 < Dwr)%nat -> osite_ok d Dwl Dwr W -> env_ok Dwl Dl Dl BL -> env_ok Dwr Dr Dr BR ->
+  let Af := flat_op F d Dl Dr (apply_local_hamiltonian BL BR W) in
+  maps_len F (d * Dl * Dr) Af /\ linear F (d * Dl * Dr) Af /\
+  (local_sa F d Dl Dr (apply_local_hamiltonian BL BR W) -> self_adjoint F (d * Dl * Dr) Af).
+Proof.
+  intros F d Dl Dr Dwl Dwr BL BR W Hd Hwl Hwr HW HL HR Af. split; [exact (flat_op_len F d Dl Dr _)|].
+  split; [exact (flat_op_linear F d Dl Dr _ (alh_local_op F d Dl Dr Dwl Dwr BL BR W Hd Hwl Hwr HW HL HR))|].
+  exact (flat_op_self_adjoint F d Dl Dr _ Hd).
+Qed.
+Print Assumptions C08_flat_heff_hypotheses.
+
+(* kexp_from_krylov: ONE call of _local_hamiltonian_step meets the conserving contract kexp_ok, given shapes, self-adjointness of
+   H_eff, a non-zero start tensor (otherwise the code raises) and the C14/C15 contracts of the primitives on the calls this
+   call issues ([kexp_lanczos_calls_ok]: norm_ok on every numpy.linalg.norm call of the Lanczos loop; for the returned
+   (alpha, beta, V): eigh_ok /\ eigh_row0 of the eigh_tridiagonal answer and |exp(-dt w_l)| = 1) *)
+Theorem C08_kexp_from_krylov : forall (F : ofield) dnorm small deigh dexp dexpm numiter,
+  small_sound F small -> (1 <= numiter)%nat ->
+  forall d Dl Dr Dwl Dwr pos (BL BR : env (Cx F)) (W : osite (Cx F)) (A : site (Cx F)) (t : Cx F),
+  (0 < d)%nat -> (0 < Dwl)%nat -> (0 < Dwr)%nat ->
+  osite_ok d Dwl Dwr W -> env_ok Dwl Dl Dl BL -> env_ok Dwr Dr Dr BR -> site_ok d Dl Dr A ->
+  local_sa F d Dl Dr (apply_local_hamiltonian BL BR W) ->
+  site_dot A A <> k0 (Cx F) ->
+  kexp_lanczos_calls_ok F dnorm small deigh dexp numiter BL BR W A t ->
+  kexp_ok d BL BR W A (kexp_lanczos F dnorm small deigh dexp dexpm numiter pos BL BR W A t).
+Proof. exact kexp_from_krylov. Qed.
+Print Assumptions C08_kexp_from_krylov.
+
+(* ... and ONE call of _local_bond_step meets kexp0_ok ([bond_sa]: the zero-site operator is self-adjoint w.r.t. frob) *)
+Theorem C08_kexp0_from_krylov : forall (F : ofield) dnorm small deigh dexp dexpm numiter,
+  small_sound F small -> (1 <= numiter)%nat ->
+  forall Dw pos (BL BR : env (Cx F)) (C : mx (Cx F)) (t : Cx F),
+  (0 < Dw)%nat -> env_ok Dw (nr C) (nr C) BL -> env_ok Dw (nc C) (nc C) BR ->
+  bond_sa F (nr C) (nc C) BL BR ->
+  frob C C <> k0 (Cx F) ->
+  kexp0_lanczos_calls_ok F dnorm small deigh dexp numiter BL BR C t ->
+  kexp0_ok BL BR C (kexp0_lanczos F dnorm small deigh dexp dexpm numiter pos BL BR C t).
+Proof. exact kexp0_from_krylov. Qed.
+Print Assumptions C08_kexp0_from_krylov.
+
+(* along a run the self-adjointness and non-vanishing hypotheses are consequences of the sweep invariant: the LAPACK-level
+   contracts of the recorded calls ([lttr_ok]: qr_ok for QR, kexp_lanczos_calls_ok for the one-site calls KH,
+   kexp0_lanczos_calls_ok for the zero-site calls KB) imply the conserving-solver contracts of C08_tdvp1_conserves *)
+Theorem C08_tdvp1_lapack_to_conserving : forall (F : ofield) orth qr dnorm small deigh dexp dexpm numiter (H : mpo (Cx F)) psi dt hdt n d DsW Ds0 A qD nrm tr,
+  tdvp_singlesite orth qr (kexp_lanczos F dnorm small deigh dexp dexpm numiter) (kexp0_lanczos F dnorm small deigh dexp dexpm numiter) H psi dt hdt n = Some (A, qD, nrm, tr) ->
+  mpo_shapeb d DsW (o_A H) = true -> mps_shapeb d Ds0 (m_A (fst (orth psi))) = true ->
+  Forall right_iso (m_A (fst (orth psi))) ->
+  mpo_herm F (o_A H) d -> small_sound F small -> (1 <= numiter)%nat ->
+  lttr_ok qr dnorm small deigh dexp numiter (o_A H) dt hdt (rev tr) ->
+  ttr_ok qr (kexp_lanczos F dnorm small deigh dexp dexpm numiter) (kexp0_lanczos F dnorm small deigh dexp dexpm numiter) (o_A H) dt hdt d (rev tr).
+Proof. exact tdvp1_lapack_to_conserving. Qed.
+Print Assumptions C08_tdvp1_lapack_to_conserving.
+
+(* WHOLE RUN, single-site, END TO END: with the Krylov-based solvers the only remaining hypotheses are LAPACK-level contracts on
+   the calls actually issued (block QR, numpy.linalg.norm, eigh_tridiagonal, unimodular numpy.exp at the issued arguments, the
+   breakdown test being sound), right-isometry of MPS.orthonormalize's answer, and Hermiticity of the MPO
+   ([mpo_herm]: <w|H|w'> = conj <w'|H|w> for all words, the hypothesis of C04_heff_hermitian).  Scalars: Cx F, F any ordered field. *)
+Theorem C08_tdvp1_conserves_lapack : forall (F : ofield) orth qr dnorm small deigh dexp dexpm numiter (H : mpo (Cx F)) psi dt hdt n d DsW Ds0 A qD nrm tr,
+  tdvp_singlesite orth qr (kexp_lanczos F dnorm small deigh dexp dexpm numiter) (kexp0_lanczos F dnorm small deigh dexp dexpm numiter) H psi dt hdt n = Some (A, qD, nrm, tr) ->
+  mpo_shapeb d DsW (o_A H) = true -> mps_shapeb d Ds0 (m_A (fst (orth psi))) = true ->
+  Forall right_iso (m_A (fst (orth psi))) ->
+  mpo_herm F (o_A H) d -> small_sound F small -> (1 <= numiter)%nat ->
+  lttr_ok qr dnorm small deigh dexp numiter (o_A H) dt hdt (rev tr) ->
+  let L := length (o_A H) in
+  nrm = snd (orth psi) /\
+  dnorm2 d L A = k1 (Cx F) /\
+  denergy d L A (o_A H) = denergy d L (m_A (fst (orth psi))) (o_A H).
+Proof. exact tdvp1_run_lapack. Qed.
+Print Assumptions C08_tdvp1_conserves_lapack.
+
+(* NOT DONE in the linking round (statement kept for the record): the two-site analogue
+
+   Theorem C08_tdvp2_conserves_lapack : forall F orth split dnorm small deigh dexp dexpm numiter H psi dt hdt n d DsW Ds0 A qD nrm tr,
+     tdvp_twosite orth split (kexp_lanczos F dnorm small deigh dexp dexpm numiter) H psi dt hdt n = Some (A, qD, nrm, tr) ->
+     mpo_shapeb d DsW (o_A H) = true -> mps_shapeb d Ds0 (m_A (fst (orth psi))) = true -> Forall right_iso (m_A (fst (orth psi))) ->
+     mpo_herm F (o_A H) d -> small_sound F small -> 1 <= numiter ->
+     lttr2_ok ... (rev tr)     (* split_ok for SPLITL / SPLITR, kexp_lanczos_calls_ok for KH and for KH2 with the merged MPO tensor *) ->
+     2 <= L /\ nrm = snd (orth psi) /\ dnorm2 d L A = k1 /\ denergy d L A (o_A H) = denergy d L (m_A (fst (orth psi))) (o_A H).
+
+   The per-call theorem C08_kexp_from_krylov already covers the merged two-site calls (d := d*d, W := the merged MPO tensor);
+   missing is [local_sa] for the merged problem from the two-site invariant Z2 (C04_two_site_is_projection + mpo_herm, as
+   Proofs/LinkCtx.v does for the one-site problem from C04_heff_hermitian) and the lock-step induction over the two-site schedule. *)
+
+(* Non-vacuity of C08_kexp_from_krylov (Proofs/LinkExamplesLocal.v): one site, d = 2, H = diag(1, -1), start tensor (3, 4),
+   numiter = 2 (norms 5 and 24/25, T = [[-7/25, 24/25], [24/25, 7/25]], eigh answer w = (-1, 1) with a rational rotation,
+   constant unimodular phase): every hypothesis holds, the model output is concrete, differs from the input, and has the
+   norm 25 and the energy -7 of the start tensor *)
+From PT Require Import Proofs.KrylovExamples Proofs.KrylovExamples15 Proofs.LinkExamplesLocal.
+Example C08_kexp_from_krylov_nonvacuous :
+  kexp_ok 2 lk_E lk_E lk_W lk_A (kexp_lanczos QcF dnorm_ex ex_small lk_deigh dexp_ex (fun M => M) 2 0 lk_E lk_E lk_W lk_A lk_t) /\
+  (let A' := kexp_lanczos QcF dnorm_ex ex_small lk_deigh dexp_ex (fun M => M) 2 0 lk_E lk_E lk_W lk_A lk_t in
+   keqb CQ (site_dot A' A') (qq 25 1, qq 0 1) && keqb CQ (site_dot A' (apply_local_hamiltonian lk_E lk_E lk_W A')) (qq (-7) 1, qq 0 1)
+   && keqb CQ (site_dot lk_A (apply_local_hamiltonian lk_E lk_E lk_W lk_A)) (qq (-7) 1, qq 0 1)
+   && negb (keqb CQ (get (sel A' 0) 0 0) (get (sel lk_A 0) 0 0)) && Nat.eqb (length A') 2) = true.
+Proof. split; [exact lk_kexp_ok|vm_compute; reflexivity]. Qed.
